@@ -266,9 +266,12 @@ def checkC43 (m : Mon) (fs : List String) (pre post : Snap) (accepted : List (Ke
     | _ => none
   firstSome (perWatcher ++ [c5, c6a, c6b, c34])
 
-/-- C44 clauses evaluated on one step of the implementation -/
-def checkC44 (m : Mon) (fs : List String) (pre post : Snap) : Option String :=
-  let openOf (s : Snap) : List Nat := (List.range s.srv.length).filter fun i => (s.srv[i]?.map (·.state)).getD "closed" ≠ "closed"
+/-- C44 clauses evaluated on one step of the implementation. `strictTrigger = false` (monitor `c44b`) leaves out
+    the sub-clause "the ACTIVE server's stream failed" (violated by the unchanged tree: known findings F19, F20)
+    so that the cases that run under it keep checking everything else after the first such switch. -/
+def checkC44 (m : Mon) (strictTrigger : Bool) (fs : List String) (pre post : Snap) : Option String :=
+  let stateOf (s : Snap) (i : Nat) : String := (s.srv[i]?.map (·.state)).getD "closed"
+  let openOf (s : Snap) : List Nat := (List.range s.srv.length).filter fun i => stateOf s i ≠ "closed"
   let inv : Option String :=
     match post.act with
     | some a => if (openOf post).contains a then
@@ -276,42 +279,51 @@ def checkC44 (m : Mon) (fs : List String) (pre post : Snap) : Option String :=
           if (openOf post).contains i then none else some s!"VIOL {r.key.typ}.{r.key.name} is subscribed on server {i} which has no channel"
       else some s!"VIOL active server {a} has no channel"
     | none => if openOf post = [] then none else some "VIOL channels are open although there is no active server"
+  -- switch to a lower-priority server
   let sw : Option String := match pre.act, post.act with
     | some a, some b =>
       if a < b then
-        -- fallback
         let uncached := (pre.res ++ post.res).any fun r => r.cache.isNone
-        let activeAlive := (post.srv[a]?.map (·.state)).getD "closed" = "live"
         if !uncached then some s!"VIOL fallback from server {a} to {b} although every watched resource is cached"
-        else if activeAlive then some s!"VIOL fallback from server {a} to {b} although the stream of the active server {a} had not failed"
-        else none
-      else if b < a then
-        -- revert
-        let cause := match fs with
-          | ["respond", i, _, _, _] => i.toNat? = some b
-          | ["release"] => true
-          | _ => false
-        if !cause then some s!"VIOL reverted from server {a} to {b} without an update from {b}"
-        else if (openOf post).any (b < ·) then some s!"VIOL reverted to server {b} but a lower-priority channel is still open"
-        else if post.res.any fun r => r.chans.any (b < ·) then some s!"VIOL reverted to server {b} but resources are still subscribed below it"
+        -- (events processed on `release` may be old: the active server's stream may have failed and been
+        -- re-established while the serializer was busy, so its end state says nothing then)
+        else if strictTrigger && !m.held && stateOf post a == "live" then
+          some s!"VIOL fallback from server {a} to {b} although the stream of the active server {a} had not failed"
+        else if strictTrigger then
+          (List.range b).findSome? fun h =>
+            match post.srv[h]? with
+            | some s => if s.state = "live" ∧ (s.flags.drop 1).startsWith "m" then
+                some s!"VIOL fallback to server {b} although higher-priority server {h} has a working stream that delivered a response"
+              else none
+            | none => none
         else none
       else none
     | _, _ => none
-  let below : Option String := match fs with
+  -- an update that is processed now
+  let upd : Option String := match fs with
     | ["respond", i, _, _, _] =>
       match i.toNat?, pre.act with
       | some i, some act =>
         let delivered : Bool := !m.held && (match pre.srv[i]? with | some s => s.state == "live" && s.flags.startsWith "W" | none => false)
-        if delivered && decide (act < i) then
+        if !delivered then none
+        else if act < i then
+          -- below the active server: ignored
           if post.cbs ≠ [] then some s!"VIOL update from server {i} below the active server {act} reached watchers"
           else if post.act ≠ pre.act then some s!"VIOL update from server {i} below the active server {act} changed the active server"
           else if (post.res.map fun r => (r.key, r.cache, r.status)) ≠ (pre.res.map fun r => (r.key, r.cache, r.status)) then
             some s!"VIOL update from server {i} below the active server {act} changed the cache"
           else none
-        else none
+        else if i < act then
+          -- from a higher-priority server: revert, unsubscribe and release everything below
+          if post.act ≠ some i then some s!"VIOL update from higher-priority server {i} did not make it the active server"
+          else if (openOf post).any (i < ·) then some s!"VIOL reverted to server {i} but a lower-priority channel is still open"
+          else if post.res.any fun r => r.chans.any (i < ·) then some s!"VIOL reverted to server {i} but resources are still subscribed below it"
+          else none
+        else
+          if post.act ≠ pre.act then some s!"VIOL update from the active server {i} changed the active server" else none
       | _, _ => none
     | _ => none
-  firstSome [inv, sw, below]
+  firstSome [inv, sw, upd]
 
 def observe (m : Mon) (fs : List String) (impl : String) : Mon × String :=
   -- ops that change the monitor's own bookkeeping without a snapshot
@@ -324,7 +336,8 @@ def observe (m : Mon) (fs : List String) (impl : String) : Mon × String :=
       | ["respond", _, t, _, e] => m.accepted ++ ((parseEntries e).filterMap fun (n, u) => match u with | .ok c => some ((⟨t, n⟩ : Key), c) | _ => none)
       | _ => m.accepted
     let verdict := if m.which = "c43" then checkC43 m fs pre post accepted
-                   else if m.which = "c44" then checkC44 m fs pre post else none
+                   else if m.which = "c44" then checkC44 m true fs pre post
+                   else if m.which = "c44b" then checkC44 m false fs pre post else none
     let newW : Option Nat := match fs with | ["watch", _, _, w] => w.toNat? | _ => none
     -- a watcher that registers now has been told nothing (watcher ids may be reused after unwatch)
     let gs0 := match newW with | some w => setGhost m.ghosts w {} | none => m.ghosts
